@@ -243,7 +243,7 @@ ParseUpdate(ts) == LET r == PClauses(ts, 1, [set |-> <<>>, remove |-> <<>>, add 
    not a sentence but is accepted by this parser gets the signature "update-operand-kinds"; it is never used to accept. *)
 LaxHead(ts, p) == NameTok(ts, p) \/ (Tok(ts, p) = "VALUE" /\ Known(ts[p].s))
 RECURSIVE LaxPath(_,_)
-LaxPath(ts, p) == IF Tok(ts, p) = "(" THEN (LET r == LaxPath(ts, p + 1) IN IF r.ok /\ Tok(ts, r.p) = ")" THEN [r EXCEPT !.p = r.p + 1] ELSE PFail)
+LaxPath(ts, p) == IF Tok(ts, p) = "(" THEN (LET r == LaxPath(ts, p + 1) IN IF r.ok /\ Tok(ts, r.p) = ")" THEN PathRest(ts, r.p + 1, r.ast) ELSE PFail)
                   ELSE IF LaxHead(ts, p) THEN PathRest(ts, p + 1, <<StepOf(ts[p])>>) ELSE PFail
 RECURSIVE LaxSet(_,_), LaxRemove(_,_), LaxAdd(_,_)
 LaxSet(ts, p) ==
@@ -266,4 +266,22 @@ LaxClauses(ts, p, n) ==
   ELSE LET r == CASE Tok(ts, p) = "SET" -> LaxSet(ts, p + 1) [] Tok(ts, p) = "REMOVE" -> LaxRemove(ts, p + 1) [] OTHER -> LaxAdd(ts, p + 1)
        IN r.ok /\ LaxClauses(ts, r.p, n + 1)
 LaxUpdate(ts) == LaxClauses(ts, 1, 0)
+
+(* Parentheses around a VALUE of an update expression - SET a = (b + :w), list_append((l), :l), if_not_exists(zz, (:w)), even
+   (if_not_exists)(zz, :w): the grammar of the reference has none, the code evaluates what is inside, the properties say
+   nothing.  StripVP removes every such pair (an opening parenthesis that follows = + - , or another opening parenthesis, i.e.
+   is not the parenthesis of a function call or of a clause, with its partner); where that changes the string the judge
+   accepts a rejection as well as the meaning of the stripped string.                                                       *)
+RECURSIVE MatchP(_,_,_)
+MatchP(ts, j, depth) == IF j > Len(ts) THEN 0
+                        ELSE IF ts[j].t = "(" THEN MatchP(ts, j + 1, depth + 1)
+                        ELSE IF ts[j].t = ")" THEN (IF depth = 0 THEN j ELSE MatchP(ts, j + 1, depth - 1))
+                        ELSE MatchP(ts, j + 1, depth)
+ValueParenAt(ts, i) == ts[i].t = "(" /\ i > 1 /\ ts[i - 1].t \in {"=", "+", "-", ",", "("} /\ MatchP(ts, i + 1, 0) # 0
+RECURSIVE StripVP(_)
+StripVP(ts) == LET c == { i \in DOMAIN ts : ValueParenAt(ts, i) } IN
+               IF c = {} THEN ts
+               ELSE LET i == CHOOSE x \in c : \A y \in c : x <= y
+                        j == MatchP(ts, i + 1, 0)
+                    IN StripVP(SubSeq(ts, 1, i - 1) \o SubSeq(ts, i + 1, j - 1) \o SubSeq(ts, j + 1, Len(ts)))
 =============================================================================
